@@ -44,7 +44,7 @@ def timers_before_after(w, F, step):
 
 def unsolicited(e):
     d = e.d["desc"]
-    return d[0] in ("PUBACK", "PUBREC", "PUBCOMP", "SUBACK", "UNSUBACK") and d[-1] in (3, 4, 5)
+    return d[0] in ("PUBACK", "PUBREC", "PUBCOMP", "SUBACK", "UNSUBACK") and d[-1] in (3, 4, 5, 6)
 
 
 # ====================================================================== C05
@@ -374,6 +374,29 @@ def mon_c09(w, F, vd):
     for e in F.rx:
         if e.d["desc"][0] == "PUBREC" and e.d["desc"][-1] == 3:
             nontriv = True
+    # the identifier becomes free only on PUBCOMP or when the session is discarded
+    open_q2 = {}
+    for e in w.log:
+        if e.k == "api":
+            ri = F.info.get(e.d["rid"])
+            if ri is not None and ri.accepted and isinstance(ri.msgid, int) and not (ri.kind == "publish" and ri.qos == 0):
+                o = open_q2.get(ri.msgid)
+                if o is not None:
+                    vd.bad("C09.id_freed_before_pubcomp", "%s #%d was given id %d while the QoS 2 exchange of publish #%d (%s) is still open" % (
+                        ri.kind, ri.rid, ri.msgid, o, _stage(F.info[o], e.i)))
+                if ri.kind == "publish" and ri.qos == 2:
+                    open_q2[ri.msgid] = ri.rid
+        elif e.k == "fire":
+            for i_, o in list(open_q2.items()):
+                if o == e.d["rid"]:
+                    del open_q2[i_]
+        elif e.k == "walk":
+            for (what, mid, other) in e.d["bad"]:
+                if what == "reused" and other is not None and other >= 0 and other in F.info and F.info[other].qos == 2:
+                    vd.bad("C09.id_freed_before_pubcomp", "walk: a new publish was given id %d while the QoS 2 exchange of publish #%d (%s) is still open" % (
+                        mid, other, _stage(F.info[other], e.i)))
+            if e.d["wrapped"]:
+                nontriv = True
     vd.nontrivial = nontriv
 
 
@@ -447,6 +470,8 @@ def mon_c18(w, F, vd):
         for (ei, kind, f, raw, where) in frames:
             if kind == "MALFORMED":
                 vd.bad("C18.malformed", "connection %d: %s (first byte %02x)" % (conn.idx, f, raw[0] if raw else 0))
+            elif f.get("_soft"):
+                vd.bad("C18.malformed", "connection %d: %s with %s (first byte %02x)" % (conn.idx, kind, "; ".join(f["_soft"]), raw[0]))
         if conn.residue:
             vd.bad("C18.partial_packet", "connection %d: %d bytes that are not a complete packet end the stream" % (
                 conn.idx, len(conn.residue)))
@@ -1539,7 +1564,7 @@ def mon_c14(w, F, vd):
             if c in lost and e.d["op"] == "connect":
                 zombie.add(c)
             r = w.reqs[e.d["rid"]]
-            if getattr(r, "valid", True) is False:
+            if getattr(r, "valid", True) is False or getattr(r, "expect", None) in ("reject", "reject_any"):
                 continue
             ph = phase.get(c, "new")
             st = "idle" if (c in lost or ph in ("new", "refused")) else ph
@@ -1777,3 +1802,73 @@ def mon_c16(w, F, vd):
 def _end_of_ctx(w, e):
     evs = _ctx_events(w, e)
     return evs[-1].i if evs else e.i
+
+
+# ====================================================================== C02 (live sessions): wire conformance
+
+def mon_wire(w, F, vd):
+    """every packet written during a live session is the specification's encoding of what the API call
+    asked for"""
+    from . import refcodec as R
+    from .facts import marker_of
+    ver = w.cfg.get("version", 4)
+    retrans = False
+    for conn in w.conns:
+        for (ei, kind, f, raw, where) in conn.frames:
+            if kind == "MALFORMED":
+                vd.bad("C02.live.malformed", "connection %d wrote %s... : %s" % (conn.idx, bytes(raw[:10]).hex(), f))
+                continue
+            if f.get("_soft"):
+                vd.bad("C02.live.malformed", "connection %d wrote %s %s... : %s" % (conn.idx, kind, bytes(raw[:10]).hex(), "; ".join(f["_soft"])))
+                continue
+            g = dict((k, v) for k, v in f.items() if k not in ("_soft", "version"))
+            try:
+                canon = R.ref_encode(kind, g, f.get("version", conn.version or ver))
+            except Exception as x:  # noqa: BLE001
+                vd.bad("C02.live.reencode", "%s: %r" % (kind, x))
+                continue
+            if canon != raw:
+                vd.bad("C02.live.not_canonical", "%s written as %s..., the specification's encoding of its fields is %s..." % (
+                    kind, bytes(raw[:12]).hex(), canon[:12].hex()))
+            vd.label("live:" + kind)
+    for ri in F.info.values():
+        r = ri.req
+        if not ri.tx or not isinstance(r.args, dict) or r.args.get("call"):
+            continue
+        first = ri.tx[0]
+        if len(ri.tx) > 1 or len(ri.rel) > 1:
+            retrans = True
+        for t in ri.tx:
+            f = t.f
+            if ri.kind == "publish":
+                if f["topic"] != r.args["topic"] or bytes(f["payload"]) != r.args["payload"] or f["qos"] != r.args["qos"] \
+                        or bool(f["retain"]) != bool(r.args["retain"]):
+                    vd.bad("C02.live.fields", "publish #%d (topic %r qos %r retain %r, %d payload bytes) went out as topic %r qos %r retain %r, %d bytes" % (
+                        r.rid, r.args["topic"][:20], r.args["qos"], r.args["retain"], len(r.args["payload"]),
+                        f["topic"][:20], f["qos"], f["retain"], len(f["payload"])))
+                    break
+                if f["qos"] and f["id"] != r.msgid:
+                    vd.bad("C02.live.id", "publish #%d: id %r on the wire, msgId %r" % (r.rid, f["id"], r.msgid))
+                    break
+            elif ri.kind == "subscribe":
+                if [tuple(x) for x in f["topics"]] != [tuple(x) for x in r.args["topics"]]:
+                    vd.bad("C02.live.fields", "subscribe #%d asked %r, wrote %r" % (r.rid, r.args["topics"], f["topics"]))
+                    break
+            elif ri.kind == "unsubscribe":
+                if list(f["topics"]) != list(r.args["topics"]):
+                    vd.bad("C02.live.fields", "unsubscribe #%d asked %r, wrote %r" % (r.rid, r.args["topics"], f["topics"]))
+                    break
+            want_dup = False if t is first else (True if ri.kind == "publish" else ver == 3)
+            if bool(t.raw[0] & 0x08) != want_dup:
+                vd.bad("C02.live.dup", "%s #%d: transmission %d carries DUP=%d under protocol level %d" % (
+                    ri.kind, r.rid, ri.tx.index(t) + 1, bool(t.raw[0] & 0x08), ver))
+                break
+        for j, t in enumerate(ri.rel):
+            want_dup = (j > 0) and ver == 3
+            if bool(t.raw[0] & 0x08) != want_dup:
+                vd.bad("C02.live.dup", "PUBREL of publish #%d: transmission %d carries DUP=%d under protocol level %d" % (
+                    r.rid, j + 1, bool(t.raw[0] & 0x08), ver))
+                break
+    vd.nontrivial = retrans
+    if retrans:
+        vd.label("live:retransmission")
